@@ -2,6 +2,7 @@ import BFL.Driver.KF
 import BFL.Driver.UT
 import BFL.Driver.SUKF
 import BFL.Driver.PF
+import BFL.Driver.GPF
 import BFL.Driver.Life
 import BFL.Driver.Race
 import BFL.Driver.Shape
@@ -21,7 +22,7 @@ Executes the model's own definitions (the ones the theorems are about).
 open BFL
 
 def handlers : List (String → List String → Option String) :=
-  [DriverKF.handle, DriverUT.handle, DriverSUKF.handle, DriverPF.handle, DriverLife.handle, DriverRace.handle, DriverShape.handle, DriverFault.handle, DriverSkip.handle, DriverBounds.handle, DriverDensity.handle, DriverModels.handle, DriverExtract.handle, DriverQuat.handle, DriverDir.handle, DriverAnyBox.handle]
+  [DriverKF.handle, DriverUT.handle, DriverSUKF.handle, DriverPF.handle, DriverGPF.handle, DriverLife.handle, DriverRace.handle, DriverShape.handle, DriverFault.handle, DriverSkip.handle, DriverBounds.handle, DriverDensity.handle, DriverModels.handle, DriverExtract.handle, DriverQuat.handle, DriverDir.handle, DriverAnyBox.handle]
 
 def dispatch (line : String) : String :=
   match (line.trimAscii.toString.splitOn " ").filter (· ≠ "") with
